@@ -29,6 +29,7 @@ class CallGraph:
         self.edges = {}      # func qual -> set of callee quals
         self.external = {}   # func qual -> list of (call src, loc)
         self.sites = {}      # func qual -> list of (Call, [callee quals])
+        self.nested_edges = {}
         for f in self.repo.funcs.values():
             self._scan(f)
 
@@ -161,9 +162,9 @@ class CallGraph:
                 for g in r:
                     es.add(g.qual)
                 sites.append((c, [g.qual for g in r]))
-        # nested functions defined here are considered called (closures handed out)
-        for nf in f.nested:
-            es.add(nf.qual)
+        # nested functions defined here are considered called (closures handed out) - kept separately so that
+        # effect rules can ask for the closure of code that actually *runs*
+        self.nested_edges[f.qual] = {nf.qual for nf in f.nested}
         self.edges[f.qual] = es
         self.external[f.qual] = ext
         self.sites[f.qual] = sites
@@ -195,7 +196,7 @@ class CallGraph:
         return None
 
     # ------------------------------------------------------------------ closure
-    def closure(self, roots):
+    def closure(self, roots, nested=True):
         seen = set()
         stack = [r if isinstance(r, str) else r.qual for r in roots]
         while stack:
@@ -204,6 +205,8 @@ class CallGraph:
                 continue
             seen.add(q)
             stack.extend(self.edges.get(q, ()))
+            if nested:
+                stack.extend(self.nested_edges.get(q, ()))
         return seen
 
     def callers_of(self, qual):
